@@ -125,11 +125,11 @@ def max_mode_colour(arte, a, b):
     raise ValueError(arte)
 
 
-def build_max(r, arte=None, newsroom=None):
+def build_max(r, arte=None, newsroom=None, cols=None, rows=None):
     arte = arte if arte is not None else r.choice([0, 3, 4, 5, 6, 7, 8])
     newsroom = newsroom if newsroom is not None else (r.randrange(4) == 0)
-    cols = r.choice([8, 16, 32, 64, 256])
-    rows = r.choice([1, 2, 3, 8, 24]) if cols < 256 else r.choice([1, 2, 192])
+    cols = cols if cols is not None else r.choice([8, 16, 32, 64, 256])
+    rows = rows if rows is not None else (r.choice([1, 2, 3, 8, 24]) if cols < 256 else r.choice([1, 2, 192]))
     nbytes = cols // 8 * rows
     bits = rand_pixels(r, cols * rows, depth=2)
     body = bytes(sum(bits[k * 8 + j] << (7 - j) for j in range(8)) for k in range(nbytes))
@@ -194,12 +194,15 @@ def build_mge(r, compressed=None, rgb=None):
             "pal": pal, "rgb": rgb, "pixels": px, "compressed": compressed}
 
 
-def rat_encode(r, by, esc, style=None):
-    """literal ≠ esc, or `esc n v` with 1 ≤ n ≤ 255; nondeterministic choices."""
+def rat_encode(r, by, esc, style=None, empty_runs=False):
+    """literal ≠ esc, or `esc n v` with 1 ≤ n ≤ 255; nondeterministic choices.  empty_runs: also `esc 0 v` triples
+    (a run of no bytes: the decoder skips it), sprinkled over the stream and placed right before the end"""
     style = style if style is not None else r.randrange(3)
     out = bytearray()
     i = 0
     while i < len(by):
+        if empty_runs and (r.randrange(400) == 0 or i in (len(by) - 1, len(by) - 100, len(by) - 255, len(by) - 300)):
+            out += bytes([esc, 0, r.randrange(256)])
         j = i
         while j < len(by) and by[j] == by[i] and j - i < 255:
             j += 1
@@ -217,7 +220,7 @@ def rat_encode(r, by, esc, style=None):
     return bytes(out)
 
 
-def build_rat(r, low_nibble_max=8):
+def build_rat(r, low_nibble_max=8, empty_runs=False):
     pal = rand_pal(r)
     px = rand_pixels(r, 199 * 320)
     if low_nibble_max < 16:
@@ -227,7 +230,7 @@ def build_rat(r, low_nibble_max=8):
             px[k] |= 8
     by = pack_nib(px)
     esc = r.choice([by[0], 0, 255, r.randrange(256)])
-    data = bytes([esc, r.choice([1, 2, 255]), r.randrange(256)]) + bytes(pal) + rat_encode(r, by, esc)
+    data = bytes([esc, r.choice([1, 2, 255]), r.randrange(256)]) + bytes(pal) + rat_encode(r, by, esc, empty_runs=empty_runs)
     return {"fmt": "rat", "kind": "valid", "req": req_simple("rat", data), "data": data,
             "pal": pal, "pixels": px}
 
@@ -485,6 +488,12 @@ def extremes(r):
         out.append(c)
     c = build_max(r, arte=3, newsroom=True)
     out.append(c)
+    # Newsroom pictures wider than the default 256 pixels (width byte 33, 40, 64, 255) and of 255 rows
+    for cols, rows, arte in ((264, 4, 0), (320, 3, 5), (512, 2, 3), (2040, 2, 0), (264, 255, 8)):
+        out.append(build_max(r, arte=arte, newsroom=True, cols=cols, rows=rows))
+    # RAT with empty runs (`esc 0 v`) sprinkled over the stream and right before the end of the picture
+    out.append(build_rat(r, empty_runs=True))
+    out.append(build_rat(r, empty_runs=True))
     # HRS: every palette slot used, all 64 codes over four files
     for base in (0, 16, 32, 48):
         pal = list(range(base, base + 16))
